@@ -473,12 +473,194 @@ func checkValueCycle(kind string, res *result) {
 	}
 }
 
+// ---- graphs whose types are recursive without passing through a named struct ----
+//
+// type Tree []Tree, type Dict map[string]Dict, type L []*L (a cycle through a slice only), type Arr [1]*Arr,
+// a struct with a field of such a type, map[string]*PTree. The statement quantifies over "struct, slice, map
+// and array nodes": these are graphs whose nodes are slices, maps and arrays only. Each kind runs in a job of
+// its own (building the coder of such a type once recursed until the stack was exhausted: a dead worker names it).
+
+type recTree []recTree
+type recDict map[string]recDict
+type recL []*recL
+type recArr [1]*recArr
+type recPTree map[string]*recPTree
+type recHolder struct {
+	Name string
+	Kids recTree
+	Dict recDict
+}
+
+var recTypeKinds = []string{"tree", "dict", "cyclic-slice", "cyclic-array", "struct-field", "map-of-pointers", "tree-first-used-concurrently"}
+
+func checkRecType(kind string, res *result) {
+	type tc struct {
+		name  string
+		value func() interface{}
+		dest  func() interface{}
+		same  func(orig, got interface{}) string // "" if the decoded graph is the original one
+	}
+	deep := func(orig, got interface{}) string {
+		g := reflect.ValueOf(got).Elem().Interface()
+		if !sameTree(reflect.ValueOf(orig), reflect.ValueOf(g)) {
+			return fmt.Sprintf("decoded %#v, encoded %#v", g, orig)
+		}
+		return ""
+	}
+	var cases []tc
+	switch kind {
+	case "tree", "tree-first-used-concurrently":
+		for _, t := range []recTree{{}, {recTree{}}, {recTree{}, recTree{recTree{}}}, {recTree{recTree{recTree{}}}, recTree{}, recTree{recTree{}, recTree{}}}} {
+			t := t
+			cases = append(cases, tc{fmt.Sprintf("%#v", t), func() interface{} { return t }, func() interface{} { return new(recTree) }, deep})
+		}
+	case "dict":
+		for _, d := range []recDict{{}, {"a": recDict{}}, {"a": recDict{"b": nil}, "c": recDict{}}, {"a": recDict{"b": recDict{"c": recDict{}}}}} {
+			d := d
+			cases = append(cases, tc{fmt.Sprintf("%#v", d), func() interface{} { return d }, func() interface{} { return new(recDict) }, deep})
+		}
+	case "cyclic-slice":
+		cases = append(cases, tc{"l := L{nil, nil}; l[0] = &l", func() interface{} {
+			l := recL{nil, nil}
+			l[0] = &l
+			return &l
+		}, func() interface{} { return new(*recL) }, func(_, got interface{}) string {
+			l := *got.(**recL)
+			if l == nil || len(*l) != 2 || (*l)[0] != l || (*l)[1] != nil {
+				return fmt.Sprintf("decoded %v: not a two-element list whose first element points to the list itself", l)
+			}
+			return ""
+		}})
+	case "cyclic-array":
+		cases = append(cases, tc{"var a Arr; a[0] = &a", func() interface{} {
+			var a recArr
+			a[0] = &a
+			return &a
+		}, func() interface{} { return new(*recArr) }, func(_, got interface{}) string {
+			a := *got.(**recArr)
+			if a == nil || a[0] != a {
+				return fmt.Sprintf("decoded %v: not an array whose element points to the array itself", a)
+			}
+			return ""
+		}})
+	case "struct-field":
+		h := &recHolder{"x", recTree{recTree{}, recTree{recTree{}}}, recDict{"a": recDict{"b": nil}}}
+		cases = append(cases, tc{"&Holder{x, tree, dict}", func() interface{} { return h }, func() interface{} { return new(*recHolder) }, func(orig, got interface{}) string {
+			g := *got.(**recHolder)
+			if !sameTree(reflect.ValueOf(orig), reflect.ValueOf(g)) {
+				return fmt.Sprintf("decoded %#v", g)
+			}
+			return ""
+		}})
+	case "map-of-pointers":
+		leaf := &recPTree{}
+		cases = append(cases, tc{"PTree{a: &PTree{b: leaf}, c: leaf}", func() interface{} { return recPTree{"a": &recPTree{"b": leaf}, "c": leaf} }, func() interface{} { return new(recPTree) }, deep})
+	}
+	for _, c := range cases {
+		for _, simple := range []bool{false, true} {
+			if simple && (kind == "cyclic-slice" || kind == "cyclic-array") {
+				continue // a cycle has no finite unfolding (see valuecycle)
+			}
+			orig := c.value()
+			var problem string
+			msg, _ := iocase.Guard(func() {
+				b, err := hio.Formatter{Simple: simple}.Marshal(orig)
+				if err != nil {
+					problem = "Marshal: " + err.Error()
+					return
+				}
+				run := func() string {
+					dest := c.dest()
+					if err := (hio.Formatter{Simple: simple}).Unmarshal(b, dest); err != nil {
+						return fmt.Sprintf("Unmarshal of %q: %v", b, err)
+					}
+					return c.same(orig, dest)
+				}
+				if kind == "tree-first-used-concurrently" {
+					out := make(chan string, 8)
+					for g := 0; g < 8; g++ {
+						go func() {
+							msg, _ := iocase.Guard(func() { out <- run() })
+							if msg != "" {
+								out <- "panic: " + msg
+							}
+						}()
+					}
+					for g := 0; g < 8; g++ {
+						if p := <-out; p != "" && problem == "" {
+							problem = p
+						}
+					}
+					return
+				}
+				problem = run()
+			})
+			res.Cases++
+			if msg != "" {
+				problem = "panic: " + msg
+			}
+			if problem != "" {
+				res.Viol = append(res.Viol, viol{Sig: "C02|rectype|graph-not-reproduced|" + kind, What: fmt.Sprintf("%s (simple=%v): %s", c.name, simple, problem), Replay: job{Part: "rectype", Kind: kind}})
+			}
+		}
+	}
+	if len(res.Samples) < 1 && len(cases) > 0 {
+		res.Samples = append(res.Samples, "recursive container type "+kind+": "+cases[len(cases)-1].name+" decodes into the same graph")
+	}
+}
+
+// sameTree compares two acyclic values structurally; a nil and an empty slice or map are the same (the format
+// has one empty list).
+func sameTree(a, b reflect.Value) bool {
+	if a.Kind() != b.Kind() {
+		return false
+	}
+	switch a.Kind() {
+	case reflect.Slice, reflect.Array:
+		if a.Len() != b.Len() {
+			return false
+		}
+		for i := 0; i < a.Len(); i++ {
+			if !sameTree(a.Index(i), b.Index(i)) {
+				return false
+			}
+		}
+		return true
+	case reflect.Map:
+		if a.Len() != b.Len() {
+			return false
+		}
+		for _, k := range a.MapKeys() {
+			bv := b.MapIndex(k)
+			if !bv.IsValid() || !sameTree(a.MapIndex(k), bv) {
+				return false
+			}
+		}
+		return true
+	case reflect.Ptr:
+		if a.IsNil() || b.IsNil() {
+			return a.IsNil() == b.IsNil()
+		}
+		return sameTree(a.Elem(), b.Elem())
+	case reflect.Struct:
+		for i := 0; i < a.NumField(); i++ {
+			if !sameTree(a.Field(i), b.Field(i)) {
+				return false
+			}
+		}
+		return true
+	}
+	return reflect.DeepEqual(a.Interface(), b.Interface())
+}
+
 func runJob(j job) result {
 	var res result
 	seen := map[string]bool{}
 	switch j.Part {
 	case "valuecycle":
 		checkValueCycle(j.Kind, &res)
+	case "rectype":
+		checkRecType(j.Kind, &res)
 	case "graph":
 		for idx := j.Lo; idx < j.Hi; idx++ {
 			checkGraph(j.Kind, j.N, idx, &res, seen)
@@ -570,6 +752,10 @@ func main() {
 		jobs = append(jobs, job{Part: "valuecycle", Kind: k})
 	}
 	space["value_cycle_kinds"] = len(valueCycleKinds)
+	for _, k := range recTypeKinds {
+		jobs = append(jobs, job{Part: "rectype", Kind: k})
+	}
+	space["recursive_container_type_kinds"] = len(recTypeKinds)
 	var cases, distinct int64
 	samples := report.NewSamples(10)
 	shard.Run(jobs, shard.Options{JobTimeout: 10 * time.Minute}, func(i int, raw json.RawMessage, fail *shard.Failure) {
